@@ -22,3 +22,16 @@ Definition ex_hist_lww : list op := [
 
 (* state in the middle of ex_hist: after the first 9 operations *)
 Definition ex_mid : sys := run (firstn 9 ex_hist).
+
+(* a history with truncating merges: replica 1 keeps only the newest entry of replica 0's chain,
+   replica 0 empties itself with bound 0 and then gets the old entry 101 back from replica 2 (which
+   merged when the chain had one entry): after the repair of the stale next index 101 is its head *)
+Definition ex_hist_trunc : list op := [
+  ONew 1%N 10%N SHash []; ONew 1%N 20%N SHash []; ONew 1%N 30%N SHash [];
+  OAppend 0 1%N 1 101%N; OJoin 2 0 (-1);
+  OAppend 0 2%N 1 102%N; OAppend 0 3%N 1 103%N;
+  OJoin 1 0 1;                         (* replica 1 = {103}, a causally open log *)
+  OJoin 0 1 0;                         (* replica 0 = {} *)
+  OJoin 0 2 (-1);                      (* replica 0 = {101} *)
+  OAppend 1 4%N 2 201%N;               (* on top of the truncated log *)
+  OJoin 0 1 5 ].                       (* replica 0 = {101, 103, 201}: 102 is missing *)
